@@ -56,13 +56,16 @@ with open("/verif/seeded/INDEX.md", "w") as fh:
              "repaired they no longer fail, so they are not kept. C18-2 still manifests and is reported by C18.R4 / C03.R10 / C04.R7.\n")
     for label, sel in (("round 1", [r for r in rows if "-r" not in r[0]]), ("round 2", [r for r in rows if "-r2-" in r[0]]),
                        ("round 3", [r for r in rows if "-r3-" in r[0]]), ("round 4", [r for r in rows if "-r4-" in r[0]]), ("round 5", [r for r in rows if "-r5-" in r[0]]),
-                       ("round 6", [r for r in rows if "-r6-" in r[0]]), ("round 7", [r for r in rows if "-r7-" in r[0]]),
+                       ("round 6", [r for r in rows if "-r6-" in r[0]]), ("round 7", [r for r in rows if "-r7-" in r[0]]), ("round 8", [r for r in rows if "-r8-" in r[0]]),
                        ("all rounds", rows)):
         if not sel:
             continue
         t = sum(1 for r in sel if r[2] == "T"); o = sum(1 for r in sel if r[2] == "O"); now = sum(1 for r in sel if "missed" not in r[3])
         fh.write(f"\nTotals {label}: {len(sel)} confirmed changes; first run: {t} by the target check, {o} more only by another check, {len(sel)-t-o} by none; "
                  f"now: {now}/{len(sel)} by the target check.\n")
+    fh.write("\nRemoved after the F37 fix: C03-r6-2 (the enum-unwrapping step of the generator moved behind the supported-type check): the block packer now raises "
+             "TypeError for an element type it cannot pack, so an enum over an unsupported storage type falls back whichever way the check is written - the "
+             "change no longer alters behaviour and its demo passes.\n")
     fh.write("\nRound 3: 57 delivered; C03-r3-3 (a fourth copy of the 'one BitBuffer in the generated reader's globals' idea, also delivered as C02-r3-2, "
              "C06-r3-3 and C14-r3-1) no longer applied after the F23 fix and was not kept. C01-r3-1 and C01-r3-2 conflicted with F28 / F23 and were rebased by hand.\n")
     fh.write("\nRound 2 was evaluated first against a frozen copy of the machinery as committed before that round (so the first-run column is what an "
